@@ -37,7 +37,7 @@ thispathname = os.path.dirname(__file__)
 sys.path.append(os.path.join(thispathname))
 
 # Import necessary libraries
-from lib._compat import _str, _range, _open_csv, _ord, b
+from lib._compat import _str, _range, _open_csv, _csv_writer, _ord, b
 from . import rfigc # optional
 import shutil
 from lib.aux_funcs import recwalk, path2unix, fullpath, is_dir_or_file, is_dir, is_file, create_dir_if_not_exist
@@ -302,7 +302,7 @@ def synchronize_files(inputpaths, outpath, database=None, tqdm_bar=None, report_
     # Open report file and write header
     if report_file is not None:
         rfile = _open_csv(report_file, 'w')
-        r_writer = csv.writer(rfile, delimiter='|', lineterminator='\n', quotechar='"')
+        r_writer = _csv_writer(rfile, delimiter='|', lineterminator='\n', quotechar='"')
         r_header = ['filepath'] + ["dir%i" % (i+1) for i in _range(nbpaths)] + ['hash-correct', 'error_code', 'errors']
         r_length = len(r_header)
         r_writer.writerow(r_header)
